@@ -153,7 +153,7 @@ func checkC02(c *Ctx) (int, error) {
 		c.ev.nontrivial(st.name + fmt.Sprint(descJSON(st)))
 	}
 	c.ev.Rule = fmt.Sprintf("%d synthesised streams (1-3 blocks; stored/fixed/dynamic; code shapes flat, skewed to 15 bits, random, frequency-based, single-code and empty distance trees; token classes incl. overlapping copies, distance 32768, length 258; header options) drawn by TLC from StreamGen, plus %d encoder-produced streams (compress/flate -2,0,1,6,9; fastgo -2,1,2; with Flush points) and streams whose blocks end at and around the 64 KiB / 96 KiB / 128 KiB output offsets where the inflater's window fills, each at every acceleration level with rotating Read-size and source schedules; distinct by descriptor", nSynth, nEnc)
-	for _, st := range streams[:minInt(3, len(streams))] {
+	for _, st := range spread(streams) {
 		c.ev.sample(descJSON(st))
 	}
 	return c.readerRun("c02", cases, true)
@@ -271,7 +271,7 @@ func checkC03(c *Ctx) (int, error) {
 	}
 	c.ev.Extra["fault_kinds_covered"] = kinds
 	c.ev.Rule = fmt.Sprintf("%d fault descriptors from StreamGen (17 fault kinds x first/later block, every acceleration level, fresh and reused Reader), %d mutated valid streams (bit flips, byte substitutions), %d random byte strings, truncation at every byte of %d small streams; rotating source/read schedules; distinct by stream", nFault, nMut, nMut/10, nTrunc)
-	for _, st := range streams[:minInt(3, len(streams))] {
+	for _, st := range spread(streams) {
 		c.ev.sample(descJSON(st))
 	}
 	return c.readerRun("c03", cases, true)
@@ -337,7 +337,7 @@ func checkC18(c *Ctx) (int, error) {
 		c.ev.nontrivial(st.name + fmt.Sprint(descJSON(st)) + fmt.Sprint(st.s.Mut))
 	}
 	c.ev.Rule = fmt.Sprintf("%d inputs (valid and faulty StreamGen descriptors, encoder streams, mutated/truncated streams) x all %d acceleration levels of this host, same source and Read schedule per input; group clause: the outcome at every level equals the outcome at the lowest level; distinct by input", len(streams), len(c.Levels))
-	for _, st := range streams[:minInt(3, len(streams))] {
+	for _, st := range spread(streams) {
 		c.ev.sample(descJSON(st))
 	}
 	n, err := c.readerRun("c18", cases, true)
